@@ -255,6 +255,10 @@ def op_has_argument(opcode: int, opc) -> bool:
     """
     Return True if `opcode` instruction has an operand.
     """
+    if opc.version_tuple >= (3, 13):
+        # From 3.13 on the opcode number alone does not tell: WITH_EXCEPT_START sits
+        # at the HAVE_ARGUMENT threshold and takes no operand. dis consults hasarg.
+        return opcode in opc.hasarg
     return opcode >= opc.HAVE_ARGUMENT
 
 
